@@ -1261,7 +1261,9 @@ class Timezone(Component):
                         if not transitions[index][4]:  # [4] is is_dst
                             dst_offset = osto - transitions[index][2]  # [2] is osto  # noqa
                             break
-            assert dst_offset is not False
+            if dst_offset is False:
+                # a definition without any STANDARD observance
+                dst_offset = osto - osfrom
             transition_info.append((osto, dst_offset, name))
         return transition_times, transition_info
 
